@@ -262,6 +262,24 @@ class PDLRewritePattern(RewritePattern):
                 if not matcher.check_native_constraints(constraint_op):
                     return
 
+        # Constant attributes and types of the pattern may be used by the rewrite without
+        # having been bound by the match
+        for constant_op in parent.body.ops:
+            if (
+                isinstance(constant_op, pdl.AttributeOp)
+                and constant_op.value is not None
+            ):
+                matcher.matching_context.setdefault(
+                    constant_op.output, constant_op.value
+                )
+            elif (
+                isinstance(constant_op, pdl.TypeOp)
+                and constant_op.constantType is not None
+            ):
+                matcher.matching_context.setdefault(
+                    constant_op.result, constant_op.constantType
+                )
+
         self.interpreter.push_scope("rewrite")
         self.interpreter.set_values(matcher.matching_context.items())
         self.functions.rewriter = rewriter
